@@ -81,7 +81,11 @@ def _fake_open_factory(make):
     return fake_open
 
 
+LOADTXT_DTYPES = []
+
+
 def _fake_loadtxt(f, dtype="float64", **kw):
+    LOADTXT_DTYPES.append(dtype)
     if not isinstance(f, FakeFile):
         raise E.HarnessError("loadtxt stub given %r" % (f,))
     if f.closed:
@@ -92,7 +96,18 @@ def _fake_loadtxt(f, dtype="float64", **kw):
     return f.field.copy().view(npx.MinMaxArray)
 
 
-def _write_real(path, gid, hshape, region, drange, field):
+def _write_real(path, gid, hshape, region, drange, field, fmt="plain"):
+    if fmt == "tabs":
+        # same numbers, other legal layout: padded grid id, tabs and runs of blanks, leading blanks, exponent notation, CRLF
+        with open(path, "w", newline="") as fh:
+            fh.write("  %s \t\r\n" % gid)
+            fh.write("\t%d   %d \r\n" % (hshape[0], hshape[1]))
+            fh.write(" %.17e\t\t%.17e\r\n" % (float(region[2]), float(region[3])))
+            fh.write("%.17e   %.17e  \r\n" % (float(region[0]), float(region[1])))
+            fh.write("\t%.17e \t %.17e\r\n" % (float(drange[0]), float(drange[1])))
+            for row in field:
+                fh.write("  " + " \t ".join("%.17e" % float(v) for v in row) + " \r\n")
+        return
     with open(path, "w") as fh:
         fh.write("%s\n" % gid)
         fh.write("%d %d\n" % (hshape[0], hshape[1]))
@@ -117,9 +132,13 @@ def h_load(ctx):
             ctx.assume(v < BLANK)
     gid = "DSAA"
     via_path = cfg["path"]
+    dtype = cfg.get("dtype")
+    lkw = {"dtype": dtype} if dtype else {}
+    fake_path = "some/path.grd"
     if ctx.sym:
+        del LOADTXT_DTYPES[:]
         lines = [
-            Line(gid + "\n"),
+            Line(("  " + gid + " \t\n") if cfg.get("fmt") == "tabs" else (gid + "\n")),
             Line("shape\n", [Tok("r", hr), Tok("c", hc)]),
             Line("sn\n", [Tok("s", s), Tok("n", n)]),
             Line("we\n", [Tok("w", w), Tok("e", e)]),
@@ -132,7 +151,7 @@ def h_load(ctx):
         mine = FakeFile(lines, field)
         try:
             try:
-                grid = vd.load_surfer("some/path.grd" if via_path else mine)
+                grid = vd.load_surfer(fake_path if via_path else mine, **lkw)
                 raised = None
             except (IOError, ValueError) as exc:
                 grid, raised = None, exc
@@ -147,11 +166,14 @@ def h_load(ctx):
         else:
             ctx.claim("a caller's file object is never closed and no other file is opened", And(len(OPENED) == 0, not mine.closed))
         hshape = (hr, hc)
+        if LOADTXT_DTYPES:
+            ctx.claim("the body is read once, as the requested dtype (float64 by default)", LOADTXT_DTYPES == [dtype or "float64"])
+        path = fake_path
     else:
         tmp = tempfile.mkdtemp(prefix="symx_c19_", dir=os.environ.get("TMPDIR", "/dev/shm" if os.path.isdir("/dev/shm") else None))
         path = os.path.join(tmp, "grid.grd")
         hshape = (int(hr), int(hc))
-        _write_real(path, gid, hshape, (w, e, s, n), (dmin, dmax), np.asarray(field, dtype=float))
+        _write_real(path, gid, hshape, (w, e, s, n), (dmin, dmax), np.asarray(field, dtype=float), cfg.get("fmt", "plain"))
         fobj = None
         real_opened = []
 
@@ -164,10 +186,10 @@ def h_load(ctx):
         try:
             try:
                 if via_path:
-                    grid = vd.load_surfer(path)
+                    grid = vd.load_surfer(path, **lkw)
                 else:
                     fobj = open(path)
-                    grid = vd.load_surfer(fobj)
+                    grid = vd.load_surfer(fobj, **lkw)
                 raised = None
             except (IOError, ValueError) as exc:
                 grid, raised = None, exc
@@ -212,14 +234,19 @@ def h_load(ctx):
         if blank[k]:
             ctx.claim("blank-value sentinels (>= 1.70141e38) become NaN", isnan)
         else:
-            ctx.claim("values are those written in the file, row by row", And(not isnan, eq(v, field[idx]) if not isnan else False))
+            if dtype == "float32" and not ctx.sym:
+                ctx.claim("values are those written in the file, row by row", CBool((not isnan) and abs(float(v) - float(field[idx])) <= 1e-6 * max(abs(float(field[idx])), 1e-30)))
+            else:
+                ctx.claim("values are those written in the file, row by row", And(not isnan, eq(v, field[idx]) if not isnan else False))
     nr, nc = fshape
     for i in range(nr):
         ctx.claim("northing evenly spaced over the header's south..north", eq(grid.coords["northing"].values[i] * (nr - 1), s * (nr - 1) + i * (n - s)))
     for j in range(nc):
         ctx.claim("easting evenly spaced over the header's west..east", eq(grid.coords["easting"].values[j] * (nc - 1), w * (nc - 1) + j * (e - w)))
     ctx.claim("grid id in the attributes", grid.attrs.get("gridID") == gid)
-    ctx.claim("the path is recorded iff a path was given", ("file" in grid.attrs) == bool(via_path))
+    ctx.claim("the path is recorded iff a path was given, and it is the path as given", (grid.attrs.get("file") == path) if via_path else ("file" not in grid.attrs))
+    if not ctx.sym:
+        ctx.claim("the grid has the requested dtype (float64 by default)", str(grid.dtype) == (dtype or "float64"))
 
 
 def h_unreadable(ctx):
@@ -227,8 +254,9 @@ def h_unreadable(ctx):
     a file opened by load_surfer is closed"""
     via_path = ctx.cfg["path"]
     w, e, s, n = ctx.real("W"), ctx.real("E"), ctx.real("S"), ctx.real("N")
+    bad_header = ctx.cfg.get("kind") == "header"  # a range line with three numbers: the header itself cannot be read
     if ctx.sym:
-        lines = [Line("DSAA\n"), Line("shape\n", [Tok("r", 2), Tok("c", 6)]), Line("sn\n", [Tok("s", s), Tok("n", n)]), Line("we\n", [Tok("w", w), Tok("e", e)]), Line("range\n", [Tok("lo", 0.0), Tok("hi", 1.0)])]
+        lines = [Line("DSAA\n"), Line("shape\n", [Tok("r", 2), Tok("c", 6)]), Line("sn\n", [Tok("s", s), Tok("n", n)] + ([Tok("x", 1.0)] if bad_header else [])), Line("we\n", [Tok("w", w), Tok("e", e)]), Line("range\n", [Tok("lo", 0.0), Tok("hi", 1.0)])]
         del OPENED[:]
 
         def bad_loadtxt(f, dtype="float64", **kw):
@@ -259,7 +287,7 @@ def h_unreadable(ctx):
     tmp = tempfile.mkdtemp(prefix="symx_c19_", dir="/dev/shm" if os.path.isdir("/dev/shm") else None)
     path = os.path.join(tmp, "ragged.grd")
     with open(path, "w") as fh:
-        fh.write("DSAA\n2 6\n%r %r\n%r %r\n0.0 1.0\n" % (float(s), float(n), float(w), float(e)))
+        fh.write("DSAA\n2 6\n%r %r%s\n%r %r\n0.0 1.0\n" % (float(s), float(n), " 1.0" if bad_header else "", float(w), float(e)))
         fh.write("0.0 0.1 0.2 0.3\n0.4 0.5\n0.6 0.7 0.8 0.9\n1.0 0.5\n")
     real_opened = []
 
@@ -297,19 +325,19 @@ def h_unreadable(ctx):
 
 
 def _cfg(tier, seed):
-    out = [{"shape": (2, 2), "path": True}, {"shape": (2, 3), "path": False, "blankable": 2}, {"shape": (3, 2), "path": True, "blankable": 1}]
+    out = [{"shape": (2, 2), "path": True}, {"shape": (2, 3), "path": False, "blankable": 2, "fmt": "tabs"}, {"shape": (3, 2), "path": True, "blankable": 1, "dtype": "float32"}, {"shape": (2, 2), "path": True, "blankable": 1, "dtype": "float64", "fmt": "tabs"}]
     if tier == "thorough":
         out += [{"shape": (2, 3), "path": True}, {"shape": (3, 2), "path": False}, {"shape": (3, 3), "path": False, "blankable": 3}]
     return out
 
 
 HARNESSES = [
-    Harness("unreadable_body", h_unreadable, {"quick": [{"path": True}, {"path": False}]}, bounds="symbolic header ranges; the body parser raises (ragged wrapped rows in the replay's real file)", stubs=["np.loadtxt -> raises ValueError (symbolic run)", "builtin open -> fake file recording close()"]),
+    Harness("unreadable_body", h_unreadable, {"quick": [{"path": True}, {"path": False}, {"path": True, "kind": "header"}, {"path": False, "kind": "header"}]}, bounds="symbolic header ranges; the body parser raises (ragged wrapped rows in the replay's real file), or a header range line holds three numbers", stubs=["np.loadtxt -> raises ValueError (symbolic run)", "builtin open -> fake file recording close()"]),
     Harness(
         "load_surfer",
         h_load,
         _cfg,
-        bounds="header shape symbolic in 2..3 x 2..3 (equal to the body's or not), symbolic header ranges and data range, planted symbolic field of shape 2x2 / 2x3 (quick) up to 3x3 (thorough) with every blanking pattern (cells >= 1.70141e38) forked; path and open-file-object inputs",
+        bounds="header shape symbolic in 2..3 x 2..3 (equal to the body's or not), symbolic header ranges and data range, planted symbolic field of shape 2x2 / 2x3 (quick) up to 3x3 (thorough) with every blanking pattern (cells >= 1.70141e38) forked; path and open-file-object inputs; default / float32 / float64 dtype; replay files in two layouts (single blanks and repr numbers; tabs, runs of blanks, padded grid id, exponent notation, CRLF)",
         stubs=["np.loadtxt -> planted field (symbolic run)", "builtin open -> fake file recording close()", "np.ma.masked_where -> masked object array with merged min/max"],
         outside="everything np.loadtxt does: tokenising, whitespace, number formatting, wrapped rows, dtype conversion (OUT-LIB); that part is exercised only by the replays, which write real files",
         timeout_s=900,
